@@ -348,8 +348,8 @@ func runC20(c *Check, a *Analysis) {
 					if len(callsIn(f, "(*sync.WaitGroup).Wait")) == 0 {
 						continue
 					}
-					eachInstr(f, func(x ssa.Instruction) {
-						if isCloseOf(x, func(recv ssa.Value) bool { return isLoadOf(p.canon(recv), "ServerContext", storedField.Field) }) {
+					eachInstrCtx(f, func(x, _ ssa.Instruction, res func(ssa.Value) ssa.Value) {
+						if isCloseOf(x, func(recv ssa.Value) bool { return isLoadOf(p.canon(res(recv)), "ServerContext", storedField.Field) }) {
 							okc = true
 						}
 					})
@@ -358,11 +358,18 @@ func runC20(c *Check, a *Analysis) {
 			default:
 				// local (possibly via a composite literal field of the poll context)
 				viaLiteral := ""
+				// a field of a function-local bundle of another type is a local
+				// variable by another spelling
+				localField := FieldRef{}
 				if newCall.Referrers() != nil {
 					for _, r := range *newCall.Referrers() {
 						if st, ok := r.(*ssa.Store); ok {
 							if fr, base, ok := fieldOfAddr(st.Addr); ok && baseIsLocalAlloc(base) {
-								viaLiteral = fr.Field
+								if fr.Struct == "ServerContext" {
+									viaLiteral = fr.Field
+								} else {
+									localField = fr
+								}
 							}
 						}
 					}
@@ -372,6 +379,9 @@ func runC20(c *Check, a *Analysis) {
 						if p.canon(o) == ssa.Value(newCall) {
 							return true
 						}
+					}
+					if localField.Struct != "" && isLoadOf(p.canon(recv), localField.Struct, localField.Field) {
+						return true
 					}
 					return false
 				}
@@ -394,8 +404,8 @@ func runC20(c *Check, a *Analysis) {
 						if len(callsIn(f, "(*sync.WaitGroup).Wait")) == 0 {
 							continue
 						}
-						eachInstr(f, func(x ssa.Instruction) {
-							if isCloseOf(x, func(recv ssa.Value) bool { return isLoadOf(p.canon(recv), "ServerContext", viaLiteral) }) {
+						eachInstrCtx(f, func(x, _ ssa.Instruction, res func(ssa.Value) ssa.Value) {
+							if isCloseOf(x, func(recv ssa.Value) bool { return isLoadOf(p.canon(res(recv)), "ServerContext", viaLiteral) }) {
 								okc = true
 							}
 						})
@@ -405,19 +415,16 @@ func runC20(c *Check, a *Analysis) {
 				}
 				// a variable that is nil unless this New ran: the `v == nil` edges
 				// are infeasible on paths that come from the New
-				cut := map[edge]bool{}
-				if es, _ := p.guardEdges(fn, matchValueNil(p, newCall)); true {
-					for e := range es {
-						cut[e] = true
-					}
+				cut, _ := p.guardEdges(fn, matchValueNil(p, newCall))
+				if localField.Struct != "" {
+					es, _ := p.guardEdges(fn, matchFieldNil(p, localField.Struct, localField.Field))
+					cut = p.unionCuts(cut, es)
 				}
 				if newCall.Referrers() != nil {
 					for _, r := range *newCall.Referrers() {
 						if phi, ok := r.(*ssa.Phi); ok {
 							es, _ := p.guardEdges(fn, matchValueNil(p, phi))
-							for e := range es {
-								cut[e] = true
-							}
+							cut = p.unionCuts(cut, es)
 						}
 					}
 				}
